@@ -328,8 +328,9 @@ def write_evidence(driver, tier, seed, spaces, acc, wall, nviol, replay=False):
         "coverage": cov, "assumptions": list(getattr(driver, "ASSUMPTIONS", [])),
         "wall_s": round(wall, 2), "violations": nviol,
     }
-    os.makedirs(os.path.join(VERIF, "evidence"), exist_ok=True)
-    path = os.path.join(VERIF, "evidence", driver.ID + ".json")
+    evdir = os.environ.get("VERIF_EVIDENCE_DIR") or os.path.join(VERIF, "evidence")
+    os.makedirs(evdir, exist_ok=True)
+    path = os.path.join(evdir, driver.ID + ".json")
     tmp = path + ".tmp%d" % os.getpid()
     with open(tmp, "w") as f:
         json.dump(ev, f, indent=1, sort_keys=False)
@@ -354,7 +355,7 @@ def run_check(driver, tier, seed):
         if key in known:
             lines.append("KNOWN-FINDING: property=%s %s [key=%s, %d cases]" % (driver.ID, known[key], key, acc.nfail[key]))
             continue
-        rdir = os.path.join(VERIF, "replays", driver.ID)
+        rdir = os.path.join(os.environ.get("VERIF_REPLAY_DIR") or os.path.join(VERIF, "replays"), driver.ID)
         os.makedirs(rdir, exist_ok=True)
         fn = os.path.join(rdir, "".join(ch if ch.isalnum() or ch in "-_." else "_" for ch in key)[:120] + ".json")
         rec = dict(rec)
